@@ -171,9 +171,9 @@ Theorem C18_response_middleware_after_every_attempt : forall fl cfg a n prev st 
   (exists k, (k <= length (a_req a))%nat /\ filter is_req l = user_evs EvReq (firstn k (a_req a)) 0 /\
       (a_req a <> [] -> (1 <= k)%nat) /\
       (k < length (a_req a) -> exists ro x, st = Stop ro (Some x)))%nat /\
-  (Forall (fun w => match w with WShort _ _ _ => False | _ => True end) (a_wraps a) -> a_getbody a = None ->
+  (Forall calls_inner_once (a_wraps a) -> a_getbody a = None ->
       filter is_cli l = user_evs EvCli (a_cli a) 0 /\ In EvSend l) /\
-  (filter is_cli l = user_evs EvCli (a_cli a) 0 \/ filter is_cli l = []).
+  (exists k, filter is_cli l = napp k (user_evs EvCli (a_cli a) 0)).
 Proof. exact response_middleware_after_every_attempt. Qed.
 Print Assumptions C18_response_middleware_after_every_attempt.
 
@@ -232,7 +232,7 @@ Print Assumptions C18_getbody_error_is_seen.
 
 Theorem C18_unmarshal_error_is_seen : forall fl cfg a s chk b w x,
   a_getbody a = None -> a_transport a = TResp s chk b -> Forall is_user (a_cli a) ->
-  b_read b = None -> b_tf b = None ->
+  b_read b = None -> b_tf b = None -> c_save cfg = false ->
   applicable (c_targets cfg) (mkResp true s chk None false false ENone) = Some w -> um_of b w = Some x ->
   exists r l, round_trip fl cfg a = (Some r, r_err r, l) /\ r_err r = last_wins (Some x) (a_cli a) /\
               r_result r = false /\ r_error r = ENone.
@@ -241,7 +241,7 @@ Print Assumptions C18_unmarshal_error_is_seen.
 
 (* wrapping round-trippers: registration order from the inside out; do() keeps a recorded error
    over a returned one *)
-Theorem C18_wrapped_result_fold : forall fl cfg a,
+Theorem C18_wrapped_result_fold : forall fl cfg a, Forall (fun w => w <> WTwice) (a_wraps a) ->
   fst (wrapped_round_trip fl cfg a) = fold_left wrap_step (a_wraps a) (fst (round_trip fl cfg a)).
 Proof. exact wrapped_result_fold. Qed.
 Print Assumptions C18_wrapped_result_fold.
@@ -273,6 +273,47 @@ Theorem C18_client_error_sticky : forall fl cfg ms i r, r_err r <> None -> r_err
 Proof. exact run_cli_sticky. Qed.
 Print Assumptions C18_client_error_sticky.
 
+(* a wrapper that calls the inner round-tripper twice hands on the SECOND call's result; a
+   response fabricated by the outermost wrapper is never read and never bound *)
+Theorem C18_twice_returns_second : forall rest i in1 in2,
+  fst (run_wraps (WTwice :: rest) i in1 in2) = fst (run_wraps rest (pred i) in2 in2).
+Proof. exact twice_returns_second. Qed.
+Print Assumptions C18_twice_returns_second.
+
+Theorem C18_fabricated_response_not_bound : forall fl cfg a ws st chk,
+  a_wraps a = ws ++ [WFab st chk] ->
+  fst (wrapped_round_trip fl cfg a) = (Some (mkResp true st chk None false false ENone), None).
+Proof. exact fabricated_response_not_bound. Qed.
+Print Assumptions C18_fabricated_response_not_bound.
+
+(* ---- the error hook is a user function too: it may rewrite resp.Err or panic ---- *)
+Theorem C18_run_verb_spec : forall fl p, p_entry p <> EDo ->
+  match do_call fl (p_cfg p) (p_attempts p) with
+  | DoOutOfFuel => run fl p = OutOfFuel
+  | DoRet ro e0 ls =>
+    let hook_runs := is_some (resp_err ro) && is_some (c_onerror (p_cfg p)) in
+    let h := if hook_runs then 1%nat else 0%nat in
+    (exists x hb, hook_runs = true /\ c_onerror (p_cfg p) = Some hb /\ h_panic hb = Some x /\ run fl p = Panicked x ls 1) \/
+    ((forall hb, hook_runs = true -> c_onerror (p_cfg p) = Some hb -> h_panic hb = None) /\
+     run fl p = finish (p_entry p) (after_hook (p_cfg p) ro) ls h)
+  end.
+Proof. exact run_verb_spec. Qed.
+Print Assumptions C18_run_verb_spec.
+
+(* ---- download next to result targets ---- *)
+Theorem C18_binding_then_download_from_cache : forall cfg tg b r w,
+  applicable tg r = Some w -> body_ok b r ->
+  let r' := fst (parse_response_body tg b r) in
+  r_cached r' = true /\ (c_save cfg = true -> handle_download cfg b r' = b_write b).
+Proof. exact binding_then_download_from_cache. Qed.
+Print Assumptions C18_binding_then_download_from_cache.
+
+Theorem C18_download_streams_when_unread : forall cfg b r,
+  c_save cfg = true -> r_present r = true -> r_cached r = false ->
+  handle_download cfg b r = match b_read b with Some e => Some e | None => b_write b end.
+Proof. exact download_streams_when_unread. Qed.
+Print Assumptions C18_download_streams_when_unread.
+
 (* ---- the pinned code violates the contract; witnesses kept checked ---- *)
 Theorem C18_pinned_digest_refuted :
   let '(r, _, _) := digest_mw Pinned digest_witness_cfg digest_witness digest_witness_resp in
@@ -291,13 +332,13 @@ Proof. exact do_pinned_nil_deref. Qed.
 (* non-vacuity: concrete non-trivial programs *)
 Example C18_nonvacuous :
   (* 200 + JSON + success target: bound; error hook silent *)
-  run Fixed (mkProg ESend (mkCfg (mkTargets true true true) true (Some (mkHook None None)) None None false)
-    [mkAttempt [None; None] None [WPass] None (TResp 200 None (mkBody None None None None None)) [Mw None None] [Mw None None] [] false false])
+  run Fixed (mkProg ESend (mkCfg (mkTargets true true true) true (Some (mkHook None None)) None None false false)
+    [mkAttempt [None; None] None [WPass] None (TResp 200 None (mkBody None None None None None None)) (TFail 9) [Mw None None] [Mw None None] [] false false])
   = Returned (Some (mkResp true 200 None None true true ENone)) None
       [[EvUd 0; EvUd 1; EvWIn 0; EvSend; EvCli 0; EvWOut 0; EvReq 0]] 0 /\
   (* 500 + ill-formed body + request-level error target: unmarshal error surfaces, hook runs once *)
-  run Fixed (mkProg ESend (mkCfg (mkTargets true true true) true (Some (mkHook None None)) None None false)
-    [mkAttempt [] None [] None (TResp 500 None (mkBody None None None (Some (-1)) None)) [] [] [] false false])
+  run Fixed (mkProg ESend (mkCfg (mkTargets true true true) true (Some (mkHook None None)) None None false false)
+    [mkAttempt [] None [] None (TResp 500 None (mkBody None None None (Some (-1)) None None)) (TFail 9) [] [] [] false false])
   = Returned (Some (mkResp true 500 None (Some (-1)) true false ENone)) (Some (-1)) [[EvSend]] 1 /\
   (* a wrapper returning (nil, err) under retry: the repaired loop retries and reports the error *)
   run Fixed (mkProg ESend retry_cfg [nil_wrapper_attempt; nil_wrapper_attempt]) =
